@@ -31,8 +31,9 @@ const (
 
 type violation struct {
 	Sig     string `json:"sig"`
-	Case    string `json:"case"`
+	Case    string `json:"case"` // a case name, or (Regex) a regular expression selecting the cases to re-run
 	Witness any    `json:"witness"`
+	Regex   bool   `json:"regex,omitempty"`
 }
 
 type results struct {
@@ -50,7 +51,7 @@ func newResults() *results { return &results{Counts: map[string]int64{}} }
 func (r *results) violate(sig, caseName string, witness any) {
 	r.mu.Lock()
 	if len(r.Viol) < 200 {
-		r.Viol = append(r.Viol, violation{sig, caseName, witness})
+		r.Viol = append(r.Viol, violation{Sig: sig, Case: caseName, Witness: witness})
 	}
 	r.mu.Unlock()
 }
@@ -391,6 +392,14 @@ func (w *world) register(r *sentRec, wire []byte) {
 	w.mu.Unlock()
 }
 
+// registerHash is register for a message whose bytes the harness did not keep (streamed reference).
+func (w *world) registerHash(r *sentRec, h [32]byte, size int) {
+	r.Hash, r.Size = h, size
+	w.mu.Lock()
+	w.byHash[r.Hash] = append(w.byHash[r.Hash], r)
+	w.mu.Unlock()
+}
+
 // ---------- connections ----------
 
 const (
@@ -666,7 +675,8 @@ func (w *world) fence(e *endpoint, topics []lib.Topic) bool {
 		payload := makePayload(24, r.ID, w.mask)
 		e.send(w, r, payload)
 		if r.ok.Load() != 1 {
-			return w.connDead(e)
+			// refused: the stream was closed; the code reports the reason through OnPeerError
+			return waitFor(5*time.Second, func() bool { return w.connDead(e) })
 		}
 		chans = append(chans, ch)
 	}
@@ -811,6 +821,15 @@ func describeRec(r *sentRec) map[string]any {
 }
 
 func (w *world) evaluate(o evalOpts) {
+	// connections the code dropped on its own (heartbeat timeout under load, ...) are looked up in its log
+	w.mu.Lock()
+	conns := append([]*conn(nil), w.conns...)
+	w.mu.Unlock()
+	for _, c := range conns {
+		if c.a != nil && c.a.n != nil && c.a.peer != nil {
+			w.connDead(c.a)
+		}
+	}
 	w.mu.Lock()
 	defer w.mu.Unlock()
 	known := func(id uint64) (int, bool) {
@@ -872,17 +891,23 @@ func (w *world) evaluate(o evalOpts) {
 					}
 				}
 			}
+			// was the connection this came over torn down (by the scenario or by the code)? Then the known
+			// teardown race can explain a zeroed or tail-only delivery; on a connection that stayed up it cannot.
+			connState := "conn=up"
+			if si, ok := w.pubIdx[d.Sender]; ok && w.lossOK[[2]int{si, d.At}] {
+				connState = "conn=torn-down"
+			}
 			switch {
 			case zero:
-				viol("corrupted-message", "shape=zeroed", wit)
+				viol("corrupted-message", "shape=zeroed "+connState, wit)
 			case w.hostile && len(segs) > 0:
-				viol("partial-delivery", "", wit)
+				viol("partial-delivery", connState, wit)
 			case len(segs) == 0:
 				viol("phantom-message", "", wit)
 			case len(segs) == 1 && segs[0].FromByte == 0 && segs[0].Len < w.recs[segs[0].ID-1].Size:
-				viol("corrupted-message", "shape=truncated", wit)
+				viol("corrupted-message", "shape=truncated "+connState, wit)
 			case len(segs) == 1:
-				viol("corrupted-message", "shape=fragment", wit)
+				viol("corrupted-message", "shape=fragment "+connState, wit)
 			default:
 				shape := "merged"
 				ids := map[uint64]bool{}
@@ -892,7 +917,7 @@ func (w *world) evaluate(o evalOpts) {
 				if len(ids) < len(segs) {
 					shape = "interleaved"
 				}
-				viol("corrupted-message", "shape="+shape, wit)
+				viol("corrupted-message", "shape="+shape+" "+connState, wit)
 			}
 			continue
 		}
